@@ -5,6 +5,7 @@ import (
 	"go/token"
 	"go/types"
 	"os"
+	"sort"
 	"strings"
 
 	"golang.org/x/tools/go/ssa"
@@ -742,22 +743,28 @@ validation:
 	c.Rule("R12.5", "every read of a filter argument by position is preceded by a proof that the argument list is long enough", 3)
 	{
 		acc := w.Fn("dig", "Filter.Accept")
-		bp := newBProver(w, acc)
 		n := 0
-		for _, o := range bp.obligationsFor(func(t types.Type) bool {
-			sl, ok := t.Underlying().(*types.Slice)
-			if !ok {
-				return false
+		// Accept, and the methods of Filter it is split into (a judging helper that hands the verdict back)
+		for _, af := range NewRegion(acc).Funcs() {
+			if af != acc && (af.Signature.Recv() == nil || !repoNamedIs(af.Signature.Recv().Type(), "dig", "Filter")) {
+				continue
 			}
-			b, ok := sl.Elem().Underlying().(*types.Basic)
-			return ok && b.Kind() == types.String
-		}) {
-			n++
-			detail := o.desc
-			if !o.ok {
-				detail += " — " + o.detail + ": a filter that carries only a filter_ref (empty filter_arg) panics here"
+			bp := newBProver(w, af)
+			for _, o := range bp.obligationsFor(func(t types.Type) bool {
+				sl, ok := t.Underlying().(*types.Slice)
+				if !ok {
+					return false
+				}
+				b, ok := sl.Elem().Underlying().(*types.Basic)
+				return ok && b.Kind() == types.String
+			}) {
+				n++
+				detail := o.desc
+				if !o.ok {
+					detail += " — " + o.detail + ": a filter that carries only a filter_ref (empty filter_arg) panics here"
+				}
+				c.Check("R12.5", fmt.Sprintf("Filter.Accept/arg-index#%d", n), instrPos(o.in), o.ok, detail)
 			}
-			c.Check("R12.5", fmt.Sprintf("Filter.Accept/arg-index#%d", n), instrPos(o.in), o.ok, detail)
 		}
 	}
 
@@ -1246,6 +1253,11 @@ func consultsBothFilters(w *World, cal *ssa.Function) bool {
 // know contributes no verdict at all – the fold then accepts as if the filter were not declared.  Every
 // dynamic type a cell value can have (what logWithCtx.get and dbtype hand out) is therefore either judged by
 // an arm of Accept (an arm that adds a verdict) or converted by Accept into a type that is.
+type verdictSite struct {
+	in ssa.Instruction
+	fn *ssa.Function
+}
+
 func checkFilterTypesHandled(c *Ctx, rule string) {
 	w := c.W
 	accept := w.Fn("dig", "Filter.Accept")
@@ -1266,12 +1278,17 @@ func checkFilterTypesHandled(c *Ctx, rule string) {
 			}
 		}
 	}
-	// judged / normalised types of Accept
-	var adds []ssa.Instruction
-	for _, ci := range callsIn(accept) {
+	// judged / normalised types of Accept: the places where a verdict is given. Those are the calls that add to
+	// the fold – in Accept or in a helper it is split into – and, when Accept adds what a judging helper
+	// returns (`res, decided, err := f.judge(…); if decided { frs.add(res) }`), the helper's returns that
+	// report a decision.
+	type vsite = verdictSite
+	var adds []vsite
+	areg := NewRegion(accept)
+	isAddCall := func(ci ssa.CallInstruction) bool {
 		cal := staticCallee(ci)
 		if cal == nil || cal.Signature.Recv() == nil || !repoNamedIs(cal.Signature.Recv().Type(), "dig", "filterResults") {
-			continue
+			return false
 		}
 		isAdd := cal.Name() == "add"
 		if !isAdd && cal.Blocks != nil { // a method of the fold that adds a verdict itself (addOrdered(op, cmp))
@@ -1281,50 +1298,108 @@ func checkFilterTypesHandled(c *Ctx, rule string) {
 				}
 			}
 		}
-		if isAdd {
-			adds = append(adds, ci)
+		return isAdd
+	}
+	for _, f := range areg.Funcs() {
+		if f.Signature.Recv() != nil && repoNamedIs(f.Signature.Recv().Type(), "dig", "filterResults") {
+			continue
+		}
+		for _, ci := range callsIn(f) {
+			if !isAddCall(ci) {
+				continue
+			}
+			adds = append(adds, vsite{ci, f})
+			// the verdict is what a helper handed back
+			args := ci.Common().Args
+			if len(args) < 2 {
+				continue
+			}
+			ex, isEx := stripConv(args[len(args)-1]).(*ssa.Extract)
+			if !isEx {
+				continue
+			}
+			hc, isCall := ex.Tuple.(*ssa.Call)
+			if !isCall {
+				continue
+			}
+			h := regionCallee(hc)
+			if h == nil || h.Blocks == nil {
+				continue
+			}
+			decidedIdx := -1
+			for _, ref := range *hc.Referrers() {
+				e2, isE := ref.(*ssa.Extract)
+				if !isE || e2.Index == ex.Index || !isBoolType(e2.Type()) {
+					continue
+				}
+				if t, _ := boolEdges(e2); len(t) > 0 && guardedByEdges(f, ci, t) {
+					decidedIdx = e2.Index
+				}
+			}
+			for _, r := range returnsOf(h) {
+				vals := returnValues(r)
+				if decidedIdx >= 0 && decidedIdx < len(vals) {
+					decides := false
+					for _, lf := range phiLeaves(vals[decidedIdx]) {
+						if k, isK := lf.Val.(*ssa.Const); isK && k.Value != nil && k.Value.String() == "false" {
+							continue
+						}
+						decides = true
+					}
+					if !decides {
+						continue
+					}
+				}
+				adds = append(adds, vsite{r, h})
+			}
 		}
 	}
 	judged := map[string]bool{}
-	type norm struct{ to []string }
 	normalised := map[string][]string{}
-	allInstrs(accept, func(in ssa.Instruction) {
-		ta, ok := in.(*ssa.TypeAssert)
-		if !ok || !ta.CommaOk {
-			return
-		}
-		k := types.TypeString(ta.AssertedType, nil)
-		var okV ssa.Value
-		for _, ref := range *ta.Referrers() {
-			if e, isE := ref.(*ssa.Extract); isE && e.Index == 1 {
-				okV = e
-			}
-		}
-		if okV == nil {
-			return
-		}
-		t, _ := boolEdges(okV)
-		for _, a := range adds {
-			if guardedByEdges(accept, a, t) {
-				judged[k] = true
-			}
-		}
-		// d = U(v) in the arm
-		allInstrs(accept, func(x ssa.Instruction) {
-			mi, isMI := x.(*ssa.MakeInterface)
-			if !isMI || !guardedByEdges(accept, mi, t) {
+	for _, tf := range areg.Funcs() {
+		tf := tf
+		allInstrs(tf, func(in ssa.Instruction) {
+			ta, ok := in.(*ssa.TypeAssert)
+			if !ok || !ta.CommaOk {
 				return
 			}
-			if _, isIface := mi.X.Type().Underlying().(*types.Interface); isIface {
-				return
-			}
-			for _, ref := range *mi.Referrers() {
-				if _, isPhi := ref.(*ssa.Phi); isPhi {
-					normalised[k] = append(normalised[k], types.TypeString(mi.X.Type(), nil))
+			k := types.TypeString(ta.AssertedType, nil)
+			var okV ssa.Value
+			for _, ref := range *ta.Referrers() {
+				if e, isE := ref.(*ssa.Extract); isE && e.Index == 1 {
+					okV = e
 				}
 			}
+			if okV == nil {
+				return
+			}
+			t, _ := boolEdges(okV)
+			for _, a := range adds {
+				if a.fn == tf && guardedByEdges(tf, a.in, t) {
+					judged[k] = true
+				}
+			}
+			// d = U(v) in the arm
+			allInstrs(tf, func(x ssa.Instruction) {
+				mi, isMI := x.(*ssa.MakeInterface)
+				if !isMI || !guardedByEdges(tf, mi, t) {
+					return
+				}
+				if _, isIface := mi.X.Type().Underlying().(*types.Interface); isIface {
+					return
+				}
+				for _, ref := range *mi.Referrers() {
+					if _, isPhi := ref.(*ssa.Phi); isPhi {
+						normalised[k] = append(normalised[k], types.TypeString(mi.X.Type(), nil))
+					}
+				}
+			})
 		})
-	})
+	}
+	defer func() {
+		c.Rule("R12.8", "a filter's verdict is given and recorded: every arm of a known operator ends in a verdict, and the verdict is recorded whether it accepts or rejects", 8)
+		checkVerdictsGiven(c, "R12.8", adds)
+	}()
 	if len(judged) == 0 {
 		c.Violation(rule, "Filter.Accept/type-switch", accept.Pos(), "no arm of Accept adds a verdict under a type test of the value")
 		return
@@ -1344,6 +1419,104 @@ func checkFilterTypesHandled(c *Ctx, rule string) {
 		}
 		c.Check(rule, "Filter.Accept/judges-"+k, accept.Pos(), ok,
 			fmt.Sprintf("a cell value of type %s (handed out by %v) is judged by an arm of Accept%s; a type no arm knows makes the declared filter contribute nothing", k, dedupStrings(srcs), via))
+	}
+}
+
+// checkVerdictsGiven (R12.8): two structural parts of "each filter compares … according to its operator":
+// an operator arm ends in a verdict, and a verdict is recorded whatever it is.
+func checkVerdictsGiven(c *Ctx, rule string, adds []verdictSite) {
+	w := c.W
+	fOp := w.Field("dig", "Filter", "Op")
+	siteFns := map[*ssa.Function]bool{}
+	isSite := map[ssa.Instruction]bool{}
+	for _, a := range adds {
+		siteFns[a.fn] = true
+		isSite[a.in] = true
+	}
+	// (a) the verdict is recorded whatever it is: the add is not conditional on the verdict itself
+	n := 0
+	for _, a := range adds {
+		ci, isCall := a.in.(ssa.CallInstruction)
+		if !isCall {
+			continue
+		}
+		n++
+		args := ci.Common().Args
+		v := stripConv(args[len(args)-1])
+		ok, detail := true, "the verdict is recorded whether it accepts or rejects"
+		if _, isK := v.(*ssa.Const); !isK {
+			t, f := boolEdges(v)
+			if len(t) > 0 && guardedByEdges(a.fn, a.in, t) {
+				ok, detail = false, "only an accepting verdict is recorded: a rejection is lost and an `and` fold accepts the row"
+			}
+			if len(f) > 0 && guardedByEdges(a.fn, a.in, f) {
+				ok, detail = false, "only a rejecting verdict is recorded: an acceptance is lost and an `or` fold rejects the row"
+			}
+		}
+		c.Check(rule, fmt.Sprintf("%s/verdict#%d-recorded-unconditionally", fnName(a.fn), n), instrPos(a.in), ok, detail)
+	}
+	// (b) an operator arm ends in a verdict: from the arm taken when Op equals a known operator no path leaves
+	// the function quietly (a nil error) without passing a place where a verdict is given
+	cuts := newCuts()
+	for in := range isSite {
+		cuts.addInstr(in)
+	}
+	var fns []*ssa.Function
+	for f := range siteFns {
+		fns = append(fns, f)
+	}
+	sort.Slice(fns, func(i, j int) bool { return fns[i].Pos() < fns[j].Pos() })
+	for _, f := range fns {
+		k := 0
+		allInstrs(f, func(in ssa.Instruction) {
+			b, ok := in.(*ssa.BinOp)
+			if !ok || b.Op != token.EQL {
+				return
+			}
+			op, isC := constString(b.Y)
+			x := b.X
+			if !isC {
+				op, isC = constString(b.X)
+				x = b.Y
+			}
+			if !isC || !isLoadOfField(x, fOp) {
+				return
+			}
+			t, _ := boolEdges(b)
+			if len(t) == 0 {
+				return
+			}
+			k++
+			quiet := false
+			for _, e := range t {
+				e = threadEdge(e)
+				hit, _ := reach(Site{e.To, -1}, func(x ssa.Instruction) bool {
+					r, isR := x.(*ssa.Return)
+					if !isR || isSite[r] {
+						return false
+					}
+					vals := returnValues(r)
+					if len(vals) == 0 {
+						return true
+					}
+					last := vals[len(vals)-1]
+					if !isErrorType(last.Type()) {
+						return true
+					}
+					for _, lf := range phiLeaves(last) {
+						if kk, isK := lf.Val.(*ssa.Const); isK && kk.Value == nil {
+							return true
+						}
+					}
+					return false
+				}, cuts)
+				if hit {
+					quiet = true
+				}
+			}
+			c.Check(rule, fmt.Sprintf("%s/op-%s#%d-gives-a-verdict", fnName(f), op, k), b.Pos(), !quiet,
+				fmt.Sprintf("when the operator is %q the value is judged: no path from that arm leaves without a verdict (the filter would take no part in the fold)", op))
+		})
 	}
 }
 
